@@ -81,6 +81,24 @@ def rawBufRun (last : LastFilter) (input : ByteArray) (outCap : Nat) : Ret × Na
         if c'.produced == before + 1 then (.bufError, 0, ByteArray.empty) else (.dataError, 0, ByteArray.empty)
     else (ret, 0, ByteArray.empty)
 
+/-- multi-call reading of the model: after the first call, keep calling with no additional output space until nothing
+    moves any more (what a sliced `lzma_code` loop reaches before it gets LZMA_BUF_ERROR). -/
+def rawMultiRun (last : LastFilter) (input : ByteArray) (outCap : Nat) : Ret × Nat × ByteArray :=
+  match last.init input with
+  | .error r => (r, 0, ByteArray.empty)
+  | .ok c =>
+    let (ret, c) := c.code outCap
+    let rec go (fuel : Nat) (ret : Ret) (c : Coder) : Ret × Coder :=
+      match fuel with
+      | 0 => (ret, c)
+      | fuel + 1 =>
+        if ret != .ok then (ret, c) else
+        let before := c.consumed
+        let (r, c') := c.code 0
+        if r == .ok && c'.consumed == before then (r, c') else go fuel r c'
+    let (ret, c) := go (input.size + 8) ret c
+    (ret, c.consumed, c.outputBytes)
+
 def fmt (r : Ret × Nat × ByteArray) : String :=
   s!"{r.1.toNat} {r.2.1} {r.2.2.size} {bytesHex r.2.2}"
 
@@ -139,7 +157,7 @@ def step (_ : Unit) (ws : List String) : Unit × String :=
     | some (l, oc), [_, _, inp] =>
       match hexBytes inp with
       | some i =>
-        let r := rawRun l i oc
+        let r := rawMultiRun l i oc
         ((), if r.1 == .dataError then "9" else fmt r)
       | none => ((), "bad-op")
     | _, _ => ((), "bad-op")
